@@ -10,9 +10,56 @@ RULES = {
     "C23.1": "check and act in one critical section (ASTPATH): the lease test that authorises a write and the engine append must be atomic with respect to lease updates. Accepted idioms: "
              "(a) a read guard on the lease set is bound to a variable that is still live across the engine append, or (b) the lease test is executed after the per-key mutex was "
              "acquired AND update_leases acquires that same per-key mutex before removing a key. Check-then-lock-then-write with the lease guard released after the check is a violation",
+    "C23.3": "the lease set pushed to the bucket is current: in NodeController::update_leases nothing is awaited between reading the applied metadata (owned_topics) and "
+             "self.bucket.update_leases(..).await. A set computed before an await can be applied after a concurrent refresh has already revoked a lease for a segment whose "
+             "sealing was applied in between; the stale set grants it again",
     "C23.2": "every engine write of distributed-walrus goes through Storage::append_by_key (who-may-call on append_for_topic / batch_append_for_topic), append_by_key takes the bucket "
              "guard first, and forward_append refreshes the leases before appending",
 }
+
+
+def check_expected_set_fresh(ctx, files, rid="C23.3"):
+    """NodeController::update_leases: nothing may be awaited between reading the applied metadata (owned_topics) and handing
+    the resulting lease set to the bucket"""
+    f = files[CTRL]
+    try:
+        ul = f.fn("update_leases")
+    except A.AnchorMissingAst as e:
+        ctx.anchor_missing(rid, str(e))
+        return
+    ctx.saw_fn("NodeController::update_leases", CTRL, len(list(A.walk(ul["body"]))))
+    try:
+        paths = A.block_paths(ul["body"])
+    except A.TooManyPaths:
+        ctx.violate(rid, "NodeController::update_leases", "too-many-paths", CTRL, ul["line"], "too many paths: fail closed")
+        return
+    n = 0
+    bad = None
+    for p in paths:
+        read_at = None
+        awaits_since = []
+        for k, node in p.events:
+            if k == "mcall" and node["method"] == "owned_topics":
+                read_at = node
+                awaits_since = []
+            elif k == "await" and read_at is not None:
+                inner = A.unwrap(node)
+                if isinstance(inner, dict) and inner.get("k") == "mcall" and inner["method"] == "update_leases" and "bucket" in A.text(inner["recv"]):
+                    n += 1
+                    if awaits_since and bad is None:
+                        bad = (read_at, awaits_since[0])
+                    read_at = None
+                else:
+                    awaits_since.append(node)
+    if n == 0:
+        ctx.anchor_missing(rid, "owned_topics(..) followed by self.bucket.update_leases(..).await in NodeController::update_leases")
+    elif bad:
+        ctx.violate(rid, "NodeController::update_leases", "lease-set-stale-when-applied", CTRL, bad[1]["line"],
+                    "the lease set is computed from the applied metadata (line %s) and only handed to the bucket after `%s` has been awaited: a rollover applied in between - and "
+                    "already acted on by a concurrent refresh - is undone, the sealed segment's lease is granted again and the next append is written into it"
+                    % (bad[0]["line"], A.text(bad[1])[:60]))
+    else:
+        ctx.ok(rid, "NodeController::update_leases", "the lease set is handed to the bucket without awaiting anything after it was read from the applied metadata", CTRL, ul["line"])
 
 
 def check_lease_refresh(ctx, files, rid):
@@ -50,7 +97,18 @@ def check_lease_critical_section(ctx, files, rid):
     b = files[BUCKET]
     try:
         abk = b.fn("append_by_key")
-        lock = b.fn("lock", ctx="BucketGuard")
+        try:
+            lock = b.fn("lock", ctx="BucketGuard")
+        except A.AnchorMissingAst:
+            # by role: the one function of bucket.rs (other than ensure_lease) that tests the lease and takes the key mutex
+            cands = [it for it in b.items if it["k"] == "fn" and it["name"] != "ensure_lease" and any(A.is_mcall(n_, "ensure_lease") for n_ in A.walk(it["body"]))
+                     and any(A.is_mcall(n_, "lock_owned") or A.is_mcall(n_, "lock_for_key") for n_ in A.walk(it["body"]))]
+            # a candidate that only contains another candidate's code (inlined helper) is dropped
+            names_ = {c_["name"] for c_ in cands}
+            cands = [c_ for c_ in cands if not any(n_.get("k") == "inlined" and n_.get("name") in names_ - {c_["name"]} for n_ in A.walk(c_["body"]))]
+            if len(cands) != 1:
+                raise
+            lock = cands[0]
         ens = b.fn("ensure_lease")
         upd = b.fn("update_leases")
     except A.AnchorMissingAst as e:
@@ -97,7 +155,24 @@ def check_lease_critical_section(ctx, files, rid):
     # ensure_lease really tests membership and rejects
     tests = [n for n in A.walk(ens["body"]) if n.get("k") == "if" and "contains" in A.text(n["cond"])]
     rejects = [n for n in A.walk(ens["body"]) if A.is_macro(n, "bail") or (n.get("k") == "return" and "Err" in A.text(n.get("e") or {}))]
-    if tests and rejects and A.text(tests[0]["cond"]).startswith("!"):
+    # by paths: a path that ends Ok has taken the `contains` branch; a path on which the key is absent ends in a rejection
+    ok_form = False
+    try:
+        eps = A.block_paths(ens["body"])
+        verdicts = []
+        for p_ in eps:
+            has = None
+            for cn, br in p_.conds:
+                if cn.get("k") == "if" and "contains" in A.text(cn["cond"]):
+                    neg = A.text(cn["cond"]).startswith("!")
+                    has = (br == "then") != neg
+            rejected = p_.exit == "err" or any(k_ == "macro" and A.is_macro(nd_, "bail") for k_, nd_ in p_.events) or any(k_ == "return" and "Err" in A.text(nd_.get("e") or {}) for k_, nd_ in p_.events)
+            if has is not None:
+                verdicts.append((has, rejected))
+        ok_form = bool(verdicts) and all(rej == (not has) for has, rej in verdicts) and any(not has for has, rej in verdicts)
+    except A.TooManyPaths:
+        ok_form = False
+    if tests and rejects and ok_form:
         ctx.ok(rid, "Storage::ensure_lease", "a key that is not in the lease set is rejected", BUCKET, tests[0]["line"])
     else:
         ctx.violate(rid, "Storage::ensure_lease", "lease-test-missing", BUCKET, ens["line"], "ensure_lease does not reject keys that are absent from the lease set")
@@ -115,7 +190,18 @@ def run(ctx):
     b = files[BUCKET]
     try:
         abk = b.fn("append_by_key")
-        lock = b.fn("lock", ctx="BucketGuard")
+        try:
+            lock = b.fn("lock", ctx="BucketGuard")
+        except A.AnchorMissingAst:
+            # by role: the one function of bucket.rs (other than ensure_lease) that tests the lease and takes the key mutex
+            cands = [it for it in b.items if it["k"] == "fn" and it["name"] != "ensure_lease" and any(A.is_mcall(n_, "ensure_lease") for n_ in A.walk(it["body"]))
+                     and any(A.is_mcall(n_, "lock_owned") or A.is_mcall(n_, "lock_for_key") for n_ in A.walk(it["body"]))]
+            # a candidate that only contains another candidate's code (inlined helper) is dropped
+            names_ = {c_["name"] for c_ in cands}
+            cands = [c_ for c_ in cands if not any(n_.get("k") == "inlined" and n_.get("name") in names_ - {c_["name"]} for n_ in A.walk(c_["body"]))]
+            if len(cands) != 1:
+                raise
+            lock = cands[0]
         ens = b.fn("ensure_lease")
         upd = b.fn("update_leases")
         lfk = b.fn("lock_for_key")
@@ -127,7 +213,12 @@ def run(ctx):
     check_lease_critical_section(ctx, files, "C23.1")
     # ---- C23.2 -----------------------------------------------------------------------
     first = abk["body"]["stmts"][0] if abk["body"]["stmts"] else None
-    if first is not None and first.get("k") == "let" and "BucketGuard::lock" in A.text(first.get("init") or {}) and first["pat"].strip() not in ("_",):
+    lock_names = {"BucketGuard::lock", lock["name"]}
+    init_nodes = list(A.walk(first.get("init") or {})) if first is not None and first.get("k") == "let" else []
+    takes_guard = any("BucketGuard::lock" in A.text(n_) for n_ in init_nodes[:1]) or any(
+        (n_.get("k") == "inlined" and n_.get("name") in lock_names) or (n_.get("k") == "mcall" and n_["method"] in lock_names) or (n_.get("k") == "call" and n_["f"].get("k") == "path" and n_["f"]["p"].split("::")[-1] in lock_names)
+        for n_ in init_nodes)
+    if first is not None and first.get("k") == "let" and takes_guard and first["pat"].strip() not in ("_",):
         # the guard must be bound to a name (a `_` pattern would drop it immediately)
         ctx.ok("C23.2", "Storage::append_by_key", "takes the bucket guard first and keeps it bound (`%s`) across the append" % first["pat"].strip(), BUCKET, first["line"])
     else:
@@ -150,6 +241,7 @@ def run(ctx):
     if n_writers >= 1:
         ctx.ok("C23.2", "distributed-walrus", "the only engine write is in Storage::append_by_key", BUCKET, abk["line"])
     check_lease_refresh(ctx, files, "C23.2")
+    check_expected_set_fresh(ctx, files, "C23.3")
     ctx.assume("distributed-walrus cannot be type-checked offline: syntax-tree analysis of bucket.rs / controller; tokio RwLock/Mutex semantics assumed")
     ctx.assume("NOT decided: the gap between applying the rollover in the metadata state machine and the next lease refresh on other schedules")
     return {
